@@ -4,7 +4,7 @@
    user procedure ([bind_params], user branch of [eval_call]).
    Statements are re-exported in Props/C15.v. *)
 From Coq Require Import ZArith NArith PArith List String Bool Floats FMapPositive Lia.
-From EvyV Require Import Base Num Ast Omap Sem.
+From EvyV Require Import Base Num Ast Omap Sem SemPure.
 Import ListNotations.
 
 (* ====================================================================== *)
@@ -603,7 +603,7 @@ Proof.
          | |- context [if ?c then Some _ else _] =>
              destruct c; [let X := fresh in intro X; discriminate X|]
          end.
-  reflexivity.
+  apply pure_builtin_none_indep.
 Qed.
 
 (* names that reach the user-function branch of evalFunccall *)
